@@ -212,7 +212,7 @@ Definition K1 : key := (1, 1, 0, 0)%N.
    healthy upstream) dials again and subscribes *)
 Definition tr_a : list action :=
   [ASub 0 K1; UpAccept 0; ASub 1 K1; ACtxCancel 0; ADialCtx 0; ABook 0; APublish 0; AWaitDone 1; ARetry 1;
-   UpAccept 1; UpAck 1; ABook 1; APublish 1; AInsert 1; ASend 1].
+   UpAccept 1; UpAck 1 PTws; ABook 1; APublish 1; AInsert 1; ASend 1].
 Example repaired_a :
   exists log, obs false tr_a = Some log /\ In (ORet 0 (Some (ECtx 0 true))) log /\ In (OSrvDial 1 K1) log
               /\ In (ORet 1 None) log /\ isolated_log_b log = true.
@@ -228,19 +228,19 @@ Proof. eexists. split; [vm_compute; reflexivity|]. split; simpl; tauto. Qed.
 (* (b) idle timer: subscriber 1 registers before the timer fires; the timer sees the table
    non-empty under the lock and leaves the connection open *)
 Definition tr_b : list action :=
-  [ASub 0 K1; UpAccept 0; UpAck 0; ABook 0; APublish 0; AInsert 0; ASend 0;
+  [ASub 0 K1; UpAccept 0; UpAck 0 PTws; ABook 0; APublish 0; AInsert 0; ASend 0;
    ACtxCancel 0; AUnsub 0; AUnsubSend 0; ARemove 0;
-   ASub 1 K1; AInsert 1; ASend 1; ATimerFire 0; UpMsg 0 1 (KData 5)].
+   ASub 1 K1; AInsert 1; ASend 1; ATimerFire 0; UpMsg 0 (frame_of 1 (KData 5))].
 (* IdleTimeout = 0: subscriber 1 obtained the connection, 0 leaves and closes it (the table is
    empty); 1 finds it closed, starts over and gets a fresh connection *)
 Definition tr_b0 : list action :=
-  [ASub 0 K1; UpAccept 0; UpAck 0; ABook 0; APublish 0; AInsert 0; ASend 0;
+  [ASub 0 K1; UpAccept 0; UpAck 0 PTws; ABook 0; APublish 0; AInsert 0; ASend 0;
    ACtxCancel 0; AUnsub 0; AUnsubSend 0; ASub 1 K1; ARemove 0; AClose 0; AInsert 1; ARetry 1;
-   UpAccept 1; UpAck 1; ABook 1; APublish 1; AInsert 1; ASend 1; ARemoveConn 0].
+   UpAccept 1; UpAck 1 PTws; ABook 1; APublish 1; AInsert 1; ASend 1; ARemoveConn 0].
 (* ... or 1 registers first: closeIfEmpty sees it and does nothing *)
 Definition tr_b0' : list action :=
-  [ASub 0 K1; UpAccept 0; UpAck 0; ABook 0; APublish 0; AInsert 0; ASend 0;
-   ACtxCancel 0; AUnsub 0; AUnsubSend 0; ASub 1 K1; ARemove 0; AInsert 1; AClose 0; ASend 1; UpMsg 0 1 (KData 6)].
+  [ASub 0 K1; UpAccept 0; UpAck 0 PTws; ABook 0; APublish 0; AInsert 0; ASend 0;
+   ACtxCancel 0; AUnsub 0; AUnsubSend 0; ASub 1 K1; ARemove 0; AInsert 1; AClose 0; ASend 1; UpMsg 0 (frame_of 1 (KData 6))].
 Example repaired_b :
   (exists log, obs true tr_b = Some log /\ In (ODeliver 1 (KData 5)) log /\ ~ In (OSrvClosed 0) log
                /\ isolated_log_b log = true)
@@ -255,8 +255,8 @@ Qed.
 (* (d) subscriber 1 subscribes with an already cancelled ctx on the connection shared with 0: it
    gets its own ctx error, the socket and subscriber 0 are untouched *)
 Definition tr_d : list action :=
-  [ASub 0 K1; UpAccept 0; UpAck 0; ABook 0; APublish 0; AInsert 0; ASend 0;
-   ACtxCancel 1; ASub 1 K1; AInsert 1; ASend 1; ARemove 1; UpMsg 0 0 (KData 7)].
+  [ASub 0 K1; UpAccept 0; UpAck 0 PTws; ABook 0; APublish 0; AInsert 0; ASend 0;
+   ACtxCancel 1; ASub 1 K1; AInsert 1; ASend 1; ARemove 1; UpMsg 0 (frame_of 0 (KData 7))].
 Example repaired_d :
   exists log, obs false tr_d = Some log /\ In (ORet 1 (Some (ECtx 1 false))) log /\ In (ODeliver 0 (KData 7)) log
               /\ ~ In (OSrvClosed 0) log /\ isolated_log_b log = true.
@@ -268,7 +268,7 @@ Qed.
    dial's return and the dialler's bookkeeping leaves a closed entry in WSTransport.conns; the
    subscriber that finds it closed starts over (getOrDial skips closed entries) *)
 Definition tr_stale : list action :=
-  [ASub 0 K1; UpAccept 0; UpAck 0; UpDrop 0; ARLReadErr 0; ARemoveConn 0; ABook 0; APublish 0; AInsert 0].
+  [ASub 0 K1; UpAccept 0; UpAck 0 PTws; UpDrop 0; ARLReadErr 0; ARemoveConn 0; ABook 0; APublish 0; AInsert 0].
 Example stale_conns_entry :
   exists s log, run (init false) tr_stale = Some (s, log) /\ conns s K1 = Some 0
                 /\ (exists x, cns s 0 = Some x /\ c_closed x = true) /\ pc s 0 = SRetry.
